@@ -806,6 +806,63 @@ func vfC11SNICertificate(t *testing.T, res *vfResult, defaultKind string, suites
 	synctest.Wait()
 }
 
+// vfC11ClientCertVerifyScheme: client authentication. The client's CertificateVerify must use a signature scheme of
+// the client's own WithSignatureSchemes list (and of the server's CertificateRequest), or the handshake fails with
+// an alert; it must not complete with a scheme the client's policy excludes.
+func vfC11ClientCertVerifyScheme(t *testing.T, res *vfResult, ver string, clientSchemes []tls.SignatureScheme, tag string) {
+	pki := vfGetPKI()
+	res.Eval(1)
+	var cO, sO []Option
+	if ver == "13" {
+		cO, sO = vfV13(), vfV13()
+	} else {
+		cO, sO = vfV12(), vfV12()
+	}
+	cO = append(cO, WithCertificates(pki.Leaf("ecdsa", "client")), WithInsecureSkipVerify(true), WithSignatureSchemes(clientSchemes...))
+	// (DTLS 1.2: an RSA-keyed server, so that its own ServerKeyExchange signature, PKCS#1 SHA-256, is acceptable to the
+	// client and the handshake reaches the client's CertificateVerify)
+	serverKind := "ecdsa"
+	if ver == "12" {
+		serverKind = "rsa"
+	}
+	sO = append(sO, WithCertificates(pki.Leaf(serverKind, "server")))
+	so := append(vfSO(sO...), WithClientAuth(RequireAnyClientCert), WithInsecureSkipVerifyHello(true))
+	p, err := vfNewPair(vfNewNet(), vfCO(cO...), so)
+	id := fmt.Sprintf("client-certificate-verify/v%s/%s", ver, tag)
+	if err != nil {
+		res.Count("config_rejected", 1)
+		res.Seen("config_rejected_cases", id+": "+err.Error())
+
+		return
+	}
+	cerr, serr := p.Handshake(30 * time.Second)
+	res.NonTrivial(id)
+	res.Count("client_certificate_verify_cases", 1)
+	var used []uint16
+	for _, it := range p.C.Conn.handshakeCache.VFItems() {
+		if it.IsClient && it.Typ == 15 && len(it.Data) >= 14 {
+			used = append(used, binary.BigEndian.Uint16(it.Data[12:14]))
+		}
+	}
+	for _, u := range used {
+		if !slices.Contains(clientSchemes, tls.SignatureScheme(u)) {
+			res.Violate("C11:signature-scheme-out-of-policy:client-certificate-verify:v"+ver,
+				fmt.Sprintf("%s: the client signed CertificateVerify with scheme %#04x, which its own signature-scheme list %x does not contain (client=%v server=%v)", id, u, clientSchemes, cerr, serr),
+				map[string]any{"client_cv": id})
+		} else {
+			res.Count("client_certificate_verify_in_policy", 1)
+		}
+	}
+	if len(used) == 0 {
+		res.Count("client_certificate_verify_not_sent", 1)
+		if cerr == nil && serr == nil {
+			res.Violate("C11:completed-without-client-certificate-verify:v"+ver, id+": both sides completed although no CertificateVerify was sent", map[string]any{"client_cv": id})
+		}
+	}
+	p.Close()
+	synctest.Wait()
+}
+
 func TestVF_C11(t *testing.T) {
 	vfGetPKI()
 	res := vfNewResult("C11", "generated pairs of option sets (version range x suite lists x curves x signature schemes x key type/PSK x EMS policy x "+
@@ -849,6 +906,19 @@ func TestVF_C11(t *testing.T) {
 		{"ecdsa", []CipherSuiteID{TLS_ECDHE_ECDSA_WITH_AES_128_GCM_SHA256}, "only-default-kind-suites"},
 	}
 	vfBubbles(t, len(snis), func(t *testing.T, i int) { vfC11SNICertificate(t, res, snis[i].def, snis[i].suites, snis[i].tag) })
+	type ccv struct {
+		ver     string
+		schemes []tls.SignatureScheme
+		tag     string
+	}
+	ccvs := []ccv{
+		{"12", []tls.SignatureScheme{tls.PKCS1WithSHA256, tls.ECDSAWithP384AndSHA384}, "sha384-only-for-ecdsa"},
+		{"12", []tls.SignatureScheme{tls.ECDSAWithP521AndSHA512, tls.PKCS1WithSHA256}, "sha512-only-for-ecdsa"},
+		{"12", []tls.SignatureScheme{tls.ECDSAWithP256AndSHA256, tls.PKCS1WithSHA256}, "control-default-hash"},
+		{"13", []tls.SignatureScheme{tls.ECDSAWithP384AndSHA384, tls.Ed25519}, "no-scheme-for-a-p256-key"},
+		{"13", []tls.SignatureScheme{tls.ECDSAWithP256AndSHA256}, "control"},
+	}
+	vfBubbles(t, len(ccvs), func(t *testing.T, i int) { vfC11ClientCertVerifyScheme(t, res, ccvs[i].ver, ccvs[i].schemes, ccvs[i].tag) })
 	res.Floor("negotiations_checked", int64(nc/10))
 	res.Floor("refused_incompatible", int64(nc/20))
 	res.Finish(t)
